@@ -55,7 +55,7 @@ def gen_case(seed, i, engine, placement=None):
     return core.Case("backend", lines, {"engine": engine})
 
 
-def oracle(case):
+def oracle(case, only=None):
     snap = {}
     queue_empty = False
     max_acked = hist.INIT
@@ -68,7 +68,7 @@ def oracle(case):
             if faulted and faulted[0] in ("f=ua", "f=un") and o[1] in ("ok", "cf", "nf"):
                 # a conflict can legitimately pre-empt the fault (the condition failed before commit)
                 pass
-            if faulted and faulted[0] in ("f=ua", "f=un") and o[1] == "ok":
+            if faulted and faulted[0] in ("f=ua", "f=un") and o[1] == "ok" and only is None:
                 return ("line %d: `%s` was answered `%s` although the engine reported an unknown outcome" % (i + 1, line, out), "uncertain-as-success")
             if o[1] == "ok":
                 max_acked = max(max_acked, int(o[2]))
@@ -90,7 +90,7 @@ def oracle(case):
                         snap[k] = (v, int(rev))
         if t[0] == "list" and o[1] != "err":
             got = dict((k, (v, rev)) for k, v, rev in hist.parse_kvs(o[3] if len(o) > 3 else "-"))
-            if queue_empty and got != snap:
+            if queue_empty and got != snap and only is None:
                 return ("after the retry queue drained, replaying the %d delivered events gives %s but the store reads %s" % (n_events, snap, got), "no-convergence")
     if final_rev is not None and final_rev < max_acked:
         return ("the read revision %d stayed below an acknowledged write %d" % (final_rev, max_acked), "stalled")
